@@ -142,6 +142,10 @@ impl Prop for C17 {
   fn count(&self, tier: Tier) -> usize {
     tier.pick(32, 600)
   }
+  fn isolate(&self) -> bool {
+    // parsing a damaged file may request a gigantic allocation and abort the process
+    true
+  }
   fn gen(&self, rng: &mut Rng, tier: Tier, _i: usize) -> Value {
     let ncommits = 2 + rng.below(2);
     let mut did = 0;
